@@ -345,6 +345,17 @@ def C3(ctx: Ctx) -> RuleResult:
             r.fail(f'{ser.name}:signature', 'value_serializer must take (instance, attribute, value)', ser.where)
             return r
         souts = expand_outcomes(ctx.ev.run(ser, {params[2]: value}))
+    # a hook that only hands the value to one conversion function (a dispatcher by class, say): that function's paths
+    followed: List[Outcome] = []
+    for o in souts:
+        v_ = o.value
+        g_ = ctx.ev.callee(v_.func) if o.kind == 'return' and isinstance(v_, Call) and isinstance(v_.func, FuncRef) and v_.args == (value,) and not v_.kwargs else None
+        if g_ is not None and len(g_.params()) == 1:
+            for o2 in expand_outcomes(ctx.ev.run(g_, {g_.params()[0]: value})):
+                followed.append(Outcome(o2.kind, o2.value, tuple(o.guards) + tuple(o2.guards), tuple(o.effects) + tuple(o2.effects), tuple(o.asserts) + tuple(o2.asserts), o2.lineno, o2.env, o2.trace))
+        else:
+            followed.append(o)
+    souts = followed
     enum_ok = nonfinite_ok = ident_ok = False
     for o in souts:
         gs = norm_guards(o.guards)
